@@ -7,12 +7,17 @@
   the value moved by `d` ns.  `Res.panic` would be an overflow trap / `abs` of `i64::MIN`.
   Specification (Spec/RoundSpec.lean): `truncSpec s p = s − s mod p`, `upSpec s p = s + (−s) mod p`
   (Euclidean `mod`), `roundSpec` = the nearer of the two, a tie going up.
+
+  The first part of the file is about that integer part (`trunc_spec` … `datetime_spec`); the section
+  "The returned value" composes it with C02 (stamps), C03/C07 (`original ± TimeDelta`) and C04
+  (`overflowing_naive_local`) into statements about the value the call returns
+  (`naive_result`, `zoned_result`, `…_properties`).
 -/
-import Chrono.Proofs.RoundCorL
+import Chrono.Proofs.RoundSubDtL
 
 namespace Chrono.Props.C17
 open Chrono Chrono.M Chrono.M.Round Chrono.Spec Chrono.Spec.Round Chrono.Proofs.RoundL
-open Chrono.Extracted.Round
+open Chrono.Extracted.Round Chrono.Proofs.RoundDt
 
 /-- the data read from src/round.rs on this run is what the theorems below are about: the guard is
 `span <= 0` in all three functions, a tie goes up (`delta_up <= delta_down`) in `duration_round` and in
@@ -85,9 +90,11 @@ theorem multiple_fixed (op : Op) (s span : Int) (hp : 0 < span) (hp2 : span ≤ 
     have := RR.ok.inj (Res.ok.inj h)
     omega
 
-/-- the result is a multiple of the span, and applying the operation to it again changes nothing.
-(At the date-time level the result may have left the `i64` window — e.g. rounding up near
-2262-04-11T23:47:16 — and the second call then reports `TimestampExceedsLimit`: `datetime_spec`.) -/
+/-- on integers (no 64-bit window: `run` takes any `Int` as the stamp): the result is a multiple of
+the span, and applying the operation to it again changes nothing.  On the values the second call may
+find the result outside the `i64` window (rounding up near 2262-04-11T23:47:16) and then reports
+`TimestampExceedsLimit`: the exact statement is the last conjunct of `naive_result_properties` /
+`zoned_result_properties`. -/
 theorem idempotent (op : Op) (s span d : Int) (hp : 0 < span) (hp2 : span ≤ 9223372036854775807)
     (h : run op (some s) (some span) = .ok (.ok d)) :
     span ∣ (s + d) ∧ run op (some (s + d)) (some span) = .ok (.ok 0) := by
@@ -128,19 +135,19 @@ example : run .trunc none (some 0) = .ok (.err .DurationExceedsLimit) ∧
     run .up (some 5) none = .ok (.err .DurationExceedsLimit) ∧
     run .up (some 5) (some (-3)) = .ok (.err .DurationExceedsLimit) := by decide
 
-/-- The whole path for a date-time given by its UTC seconds, sub-second field (not in a leap
-second) and offset (`0` for `NaiveDateTime`), and a valid `TimeDelta`: the stamp is the wall-clock
-reading `(utc + off)·10⁹ + subsec`; the call fails exactly when the duration is not in
-`1 ..= i64::MAX` ns or that stamp is not an `i64`; otherwise the value moves to the specified
-multiple.  (`Spec.ns`/`DInv`: C06; stamp ↔ date-time: C02.) -/
-theorem datetime_spec (op : Op) (utc sub off : Int) (dur : Delta) (hd : DInv dur)
-    (h0 : 0 ≤ sub) (h1 : sub < 1000000000) :
+/-- The whole integer path for a date-time given by its UTC seconds, sub-second field (any; a field
+≥ 10⁹ is a leap second) and offset (`0` for `NaiveDateTime`), and a valid `TimeDelta`: the stamp is the
+wall-clock reading `(utc + off)·10⁹ + subsec`; the call fails exactly when the duration is not in
+`1 ..= i64::MAX` ns or that stamp is not an `i64`; otherwise the value is moved by the signed distance
+to the specified multiple.  (`Spec.ns`/`DInv`: C06.  What the move does to the value: the section
+"The returned value".) -/
+theorem datetime_spec (op : Op) (utc sub off : Int) (dur : Delta) (hd : DInv dur) :
     on_datetime op utc sub off dur =
       if ns dur ≤ 0 ∨ 9223372036854775807 < ns dur then .ok (.err .DurationExceedsLimit)
       else if ¬ InI64 ((utc + off) * 1000000000 + sub) then .ok (.err .TimestampExceedsLimit)
       else .ok (.ok (specOf (kindOf op) ((utc + off) * 1000000000 + sub) (ns dur)
                       - ((utc + off) * 1000000000 + sub))) :=
-  on_datetime_eq op utc sub off dur hd h0 h1
+  on_datetime_eq2 op utc sub off dur hd
 
 /-- non-vacuity: 2262-04-11T23:47:16.854775807 (the last stamp) at +00:00 and one hour to the east;
 a one-day span; a span one nanosecond too long -/
@@ -150,6 +157,293 @@ example : DInv ⟨86400, 0⟩ ∧ DInv ⟨9223372036, 854775808⟩ ∧
     on_datetime .trunc 9223372036 854775807 0 ⟨9223372036, 854775808⟩ = .ok (.err .DurationExceedsLimit) ∧
     on_datetime .up 9223372036 854775807 0 ⟨86400, 0⟩ = .ok (.ok 763145224193) ∧
     ¬ InI64 (9223372036854775807 + 763145224193) := by decide
+
+/-! ### The returned value (NaiveDateTime and DateTime<FixedOffset>)
+
+`naive_duration` / `zoned_duration` (Model/RoundDT.lean; driver ops `rd.n.*` / `rd.z.*`) are the
+whole calls: span guard, `timestamp_nanos_opt` of the (wall-clock) reading, the integer part above,
+and `Ok(original)` / `original + TimeDelta::nanoseconds(d)` / `original - TimeDelta::nanoseconds(-d)`
+with the operator models of C03.  `instNs v` is the nanosecond timestamp of a value (C02),
+`wallNs z = instNs z.utc + z.off·10⁹` that of the wall clock of a zone-aware value.  Every case below
+is an equation `… = .ok …`: in particular no step of the call panics. -/
+
+/-- the value-level functions run the integer path (`on_datetime`, what the theorems above and the
+driver ops `rd.trunc/round/up` are about) on the stamp of the reading, then `finish`: pass an error
+on, or move `original` by the signed count (`apply_move`) -/
+theorem value_level_runs_integer_path (op : Op) (dt : NaiveDT) (z : Zoned) (dur : Delta)
+    (hdt : NDTInv dt) (hz : ZInv z) :
+    naive_duration op dt dur =
+      finish NaiveDT.add NaiveDT.sub dt (on_datetime op (instSecs dt) dt.time.frac 0 dur) ∧
+    zoned_duration op z dur =
+      finish Zoned.add Zoned.sub z (on_datetime op (instSecs z.utc) z.utc.time.frac z.off dur) := by
+  constructor
+  · exact generic_eq op dt ⟨((Chrono.Proofs.dateInv_iff dt.date).mp hdt.1).1, hdt.2⟩ dt _ _ dur
+  · obtain ⟨l, hl, hext, hsecs, hfrac, _, _⟩ := Chrono.Proofs.naive_local_spec z hz
+    unfold zoned_duration
+    rw [hl]
+    simp only []
+    rw [generic_eq op l hext z _ _ dur, hsecs, hfrac]
+    unfold on_datetime wall_stamp wallSecs
+    rw [Int.add_zero]
+
+/-- **`NaiveDateTime`, every valid value outside a leap second, every valid `TimeDelta`.**  The call
+returns `Err(DurationExceedsLimit)` exactly when the duration is not in `1 ..= i64::MAX` ns, else
+`Err(TimestampExceedsLimit)` exactly when the value's nanosecond timestamp is not an `i64`, else
+`Ok(v)` with `v` a valid non-leap value whose timestamp is the specified multiple — also as the
+crate's own `timestamp_nanos_opt` reads it back. -/
+theorem naive_result (op : Op) (dt : NaiveDT) (dur : Delta) (hdt : NDTInv dt) (hnl : NonLeap dt)
+    (hd : DInv dur) :
+    (ns dur ≤ 0 ∨ 9223372036854775807 < ns dur →
+      naive_duration op dt dur = .ok (.err .DurationExceedsLimit)) ∧
+    (0 < ns dur ∧ ns dur ≤ 9223372036854775807 → ¬ InI64 (instNs dt) →
+      naive_duration op dt dur = .ok (.err .TimestampExceedsLimit)) ∧
+    (0 < ns dur ∧ ns dur ≤ 9223372036854775807 → InI64 (instNs dt) →
+      ∃ v, naive_duration op dt dur = .ok (.ok v) ∧ NDTInv v ∧ NonLeap v ∧
+        instNs v = specOf (kindOf op) (instNs dt) (ns dur) ∧
+        NaiveDT.timestamp_nanos_opt v = .ok (if InI64 (instNs v) then some (instNs v) else none)) := by
+  obtain ⟨e1, e2, e3⟩ := naive_eval op dt dur hdt hd
+  refine ⟨e1, e2, ?_⟩
+  intro hg hin
+  obtain ⟨x, hx, hm, _⟩ := e3 hg hin
+  obtain ⟨a, b, c⟩ := moved_nonleap dt x _ hnl hm
+  exact ⟨x, hx, a, b, by rw [c]; omega, stamp_of_result x a (strict_of_nonleap x a b)⟩
+
+/-- **`DateTime<FixedOffset>`** (any offset of less than a day, `Utc` = offset 0), UTC reading valid
+and outside a leap second: the same with the WALL-CLOCK timestamp `wallNs` in place of the
+timestamp; the returned value keeps the offset; its UTC reading is valid and non-leap.  The wall
+clock may lie outside chrono's date range (`MIN_UTC` viewed at a negative offset): that is a
+`TimestampExceedsLimit`, not a panic. -/
+theorem zoned_result (op : Op) (z : Zoned) (dur : Delta) (hz : ZInv z) (hnl : NonLeap z.utc)
+    (hd : DInv dur) :
+    (ns dur ≤ 0 ∨ 9223372036854775807 < ns dur →
+      zoned_duration op z dur = .ok (.err .DurationExceedsLimit)) ∧
+    (0 < ns dur ∧ ns dur ≤ 9223372036854775807 → ¬ InI64 (wallNs z) →
+      zoned_duration op z dur = .ok (.err .TimestampExceedsLimit)) ∧
+    (0 < ns dur ∧ ns dur ≤ 9223372036854775807 → InI64 (wallNs z) →
+      ∃ v, zoned_duration op z dur = .ok (.ok v) ∧ v.off = z.off ∧ ZInv v ∧ NonLeap v.utc ∧
+        wallNs v = specOf (kindOf op) (wallNs z) (ns dur)) := by
+  obtain ⟨e1, e2, e3⟩ := zoned_eval op z dur hz hd
+  refine ⟨e1, e2, ?_⟩
+  intro hg hin
+  obtain ⟨x, hx, hm, _⟩ := e3 hg hin
+  obtain ⟨a, b, c⟩ := moved_nonleap z.utc x _ hnl hm
+  refine ⟨⟨x, z.off⟩, hx, rfl, ⟨a, hz.2⟩, b, ?_⟩
+  unfold wallNs at *
+  dsimp only
+  rw [c]; omega
+
+/-- non-vacuity: 2018-01-11T12:00:00.154 to 10 ms, to one day (the doc examples), at +01:00 to one day
+(the wall-clock midnight, 23:00 UTC); the last stamp of the window rounded up leaves the window and is
+still returned; `MIN_UTC` at −00:00:01 has its wall clock outside chrono's range: an error, no panic -/
+example : NDTInv ⟨dateOfYo 2018 11, ⟨43200, 154000000⟩⟩ ∧ NonLeap ⟨dateOfYo 2018 11, ⟨43200, 154000000⟩⟩ ∧
+    naive_duration .round ⟨dateOfYo 2018 11, ⟨43200, 154000000⟩⟩ ⟨0, 10000000⟩ =
+      .ok (.ok ⟨dateOfYo 2018 11, ⟨43200, 150000000⟩⟩) ∧
+    naive_duration .up ⟨dateOfYo 2018 11, ⟨43200, 154000000⟩⟩ ⟨86400, 0⟩ =
+      .ok (.ok ⟨dateOfYo 2018 12, ⟨0, 0⟩⟩) ∧
+    zoned_duration .trunc ⟨⟨dateOfYo 2018 11, ⟨43200, 154000000⟩⟩, 3600⟩ ⟨86400, 0⟩ =
+      .ok (.ok ⟨⟨dateOfYo 2018 10, ⟨82800, 0⟩⟩, 3600⟩) ∧
+    naive_duration .up ⟨dateOfYo 2262 101, ⟨85636, 854775807⟩⟩ ⟨86400, 0⟩ =
+      .ok (.ok ⟨dateOfYo 2262 102, ⟨0, 0⟩⟩) ∧
+    naive_duration .up ⟨dateOfYo 2262 102, ⟨0, 0⟩⟩ ⟨86400, 0⟩ = .ok (.err .TimestampExceedsLimit) ∧
+    ZInv ⟨NaiveDT.MIN, -1⟩ ∧
+    zoned_duration .trunc ⟨NaiveDT.MIN, -1⟩ ⟨1, 0⟩ = .ok (.err .TimestampExceedsLimit) ∧
+    naive_duration .trunc NaiveDT.MAX ⟨0, 0⟩ = .ok (.err .DurationExceedsLimit) := by decide +kernel
+
+/-- **The clauses of the property on the returned `NaiveDateTime`** (input outside a leap second).
+Whenever the call returns `Ok(v)`: the span is in `1 ..= i64::MAX` ns and the input in the window; the
+timestamp `m` of `v` is a multiple of the span, less than one span from the input's `w`, on the right
+side (`trunc`: not after, `round_up`: not before, `round`: at most half a span, a tie up); the value
+is returned unchanged exactly when `w` is a multiple; and the operation is idempotent — unless the
+result has left the 64-bit window (rounding up from the last 23:47:16 of the window), in which case
+the second call reports `TimestampExceedsLimit`. -/
+theorem naive_result_properties (op : Op) (dt v : NaiveDT) (dur : Delta) (hdt : NDTInv dt)
+    (hnl : NonLeap dt) (hd : DInv dur) (h : naive_duration op dt dur = .ok (.ok v)) :
+    (0 < ns dur ∧ ns dur ≤ 9223372036854775807) ∧ InI64 (instNs dt) ∧
+    ns dur ∣ instNs v ∧ -(ns dur) < instNs v - instNs dt ∧ instNs v - instNs dt < ns dur ∧
+    (op = .trunc → instNs v ≤ instNs dt) ∧ (op = .up → instNs dt ≤ instNs v) ∧
+    (op = .round → 2 * (instNs v - instNs dt) ≤ ns dur ∧ -(ns dur) < 2 * (instNs v - instNs dt)) ∧
+    (ns dur ∣ instNs dt ↔ v = dt) ∧
+    naive_duration op v dur =
+      if InI64 (instNs v) then .ok (.ok v) else .ok (.err .TimestampExceedsLimit) := by
+  obtain ⟨hg, hs, hm, hz⟩ := naive_ok_inv op dt v dur hdt hd h
+  obtain ⟨a, b, c⟩ := moved_nonleap dt v _ hnl hm
+  have hc : instNs v = specOf (kindOf op) (instNs dt) (ns dur) := by rw [c]; omega
+  obtain ⟨c1, c2, c3, c4, c5, c6, c7, c8⟩ := spec_corollaries op (instNs dt) (ns dur) hg.1
+  rw [← hc] at c1 c2 c3 c4 c5 c6 c7
+  refine ⟨hg, hs, c1, c2, c3, c4, c5, c6,
+    ⟨fun hdv => hz (by rw [← hc]; exact c7.mp hdv), fun e => c7.mpr (by rw [e])⟩, ?_⟩
+  obtain ⟨_, e2, e3⟩ := naive_result op v dur a b hd
+  by_cases hin : InI64 (instNs v)
+  · rw [if_pos hin]
+    obtain ⟨x, hx, _, _, _, _⟩ := e3 hg hin
+    obtain ⟨_, _, _, hz'⟩ := naive_ok_inv op v x dur a hd hx
+    rw [hx, hz' (by rw [hc]; exact c8)]
+  · rw [if_neg hin]; exact e2 hg hin
+
+/-- **… and on the returned `DateTime<FixedOffset>`**, with the wall-clock timestamp `wallNs`; the
+offset is kept -/
+theorem zoned_result_properties (op : Op) (z v : Zoned) (dur : Delta) (hz : ZInv z)
+    (hnl : NonLeap z.utc) (hd : DInv dur) (h : zoned_duration op z dur = .ok (.ok v)) :
+    (0 < ns dur ∧ ns dur ≤ 9223372036854775807) ∧ InI64 (wallNs z) ∧ v.off = z.off ∧
+    ns dur ∣ wallNs v ∧ -(ns dur) < wallNs v - wallNs z ∧ wallNs v - wallNs z < ns dur ∧
+    (op = .trunc → wallNs v ≤ wallNs z) ∧ (op = .up → wallNs z ≤ wallNs v) ∧
+    (op = .round → 2 * (wallNs v - wallNs z) ≤ ns dur ∧ -(ns dur) < 2 * (wallNs v - wallNs z)) ∧
+    (ns dur ∣ wallNs z ↔ v = z) ∧
+    zoned_duration op v dur =
+      if InI64 (wallNs v) then .ok (.ok v) else .ok (.err .TimestampExceedsLimit) := by
+  obtain ⟨hg, hs, hoff, hm, hzero⟩ := zoned_ok_inv op z v dur hz hd h
+  obtain ⟨a, b, c⟩ := moved_nonleap z.utc v.utc _ hnl hm
+  have hin : InI64 (wallNs z) := hs
+  have hc : wallNs v = specOf (kindOf op) (wallNs z) (ns dur) := by
+    unfold wallNs at *; rw [c, hoff]; omega
+  obtain ⟨c1, c2, c3, c4, c5, c6, c7, c8⟩ := spec_corollaries op (wallNs z) (ns dur) hg.1
+  rw [← hc] at c1 c2 c3 c4 c5 c6 c7
+  have hzv : ZInv v := ⟨a, by rw [hoff]; exact hz.2⟩
+  refine ⟨hg, hin, hoff, c1, c2, c3, c4, c5, c6,
+    ⟨fun hdv => hzero (by rw [← hc]; exact c7.mp hdv), fun e => c7.mpr (by rw [e])⟩, ?_⟩
+  obtain ⟨_, e2, e3⟩ := zoned_result op v dur hzv b hd
+  by_cases hin' : InI64 (wallNs v)
+  · rw [if_pos hin']
+    obtain ⟨x, hx, _, _, _, _⟩ := e3 hg hin'
+    obtain ⟨_, _, _, _, hz'⟩ := zoned_ok_inv op v x dur hzv hd hx
+    rw [hx, hz' (by rw [hc]; exact c8)]
+  · rw [if_neg hin']; exact e2 hg hin'
+
+/-- idempotent inside the window; the one way out of it -/
+example : naive_duration .round ⟨dateOfYo 2018 11, ⟨43200, 150000000⟩⟩ ⟨0, 10000000⟩ =
+      .ok (.ok ⟨dateOfYo 2018 11, ⟨43200, 150000000⟩⟩) ∧
+    zoned_duration .trunc ⟨⟨dateOfYo 2018 10, ⟨82800, 0⟩⟩, 3600⟩ ⟨86400, 0⟩ =
+      .ok (.ok ⟨⟨dateOfYo 2018 10, ⟨82800, 0⟩⟩, 3600⟩) ∧
+    ¬ InI64 (instNs ⟨dateOfYo 2262 102, ⟨0, 0⟩⟩) := by decide +kernel
+
+/-! ### Inputs inside a leap second (nanosecond field ≥ 10⁹): what holds instead
+
+The property's quantifier says "all date-times", but for a value inside a leap second the clause
+"the result is the specified multiple" is FALSE (known finding F19).  `naive_result` / `zoned_result`
+cover every valid value outside a leap second; the theorems below cover every valid value inside one,
+so the two domains together are all valid values.  The stamp of such a value is the line position
+`w = secs·10⁹ + field` (`instNs`, with field ≥ 10⁹: the leap second has the stamp of the following
+second plus its own fraction); the span is found from `w` correctly (`d = specOf … w − w`), but
+`original + d` counts the leap second as a real second (C07), so a move forwards past its end reads
+back one second short.  The error cases are the same as outside a leap second (since fix 32de816 of
+`timestamp_nanos_opt`, which used to refuse the wall-clock second −9223372038 with a leap-second field
+although the count fits). -/
+
+/-- the integer path (`rd.trunc/round/up`) for a leap-second field: `datetime_spec` (repeated here),
+and the result `original + d` reads back (`stamp_after`) as the specified multiple exactly when the
+move does not pass the end of the leap second, else exactly 10⁹ ns before it -/
+theorem datetime_spec_leap (op : Op) (utc sub off : Int) (dur : Delta) (hd : DInv dur)
+    (h0 : 1000000000 ≤ sub) (h1 : sub < 2000000000) :
+    let w := (utc + off) * 1000000000 + sub
+    let m := specOf (kindOf op) w (ns dur)
+    on_datetime op utc sub off dur =
+      (if ns dur ≤ 0 ∨ 9223372036854775807 < ns dur then .ok (.err .DurationExceedsLimit)
+       else if ¬ InI64 w then .ok (.err .TimestampExceedsLimit)
+       else .ok (.ok (m - w))) ∧
+    (stamp_after w sub (m - w) = m ↔ sub + (m - w) < 2000000000) ∧
+    (2000000000 ≤ sub + (m - w) → stamp_after w sub (m - w) = m - 1000000000) := by
+  intro w m
+  refine ⟨on_datetime_eq2 op utc sub off dur hd, ?_, ?_⟩
+  · unfold stamp_after; split <;> omega
+  · intro h; unfold stamp_after; rw [if_pos ⟨by omega, by omega⟩]; omega
+
+/-- **`NaiveDateTime` inside a leap second**: errors as outside one; otherwise `Ok(v)`, `v` valid,
+and with `m` the specified multiple and `d = m − w`: if the move stays before the end of the leap
+second (`field + d < 2·10⁹`: every truncation, every round that goes down, and an upward move inside
+the leap second) the timestamp of `v` is `m`; otherwise it is `m − 10⁹` and `v` is outside the leap
+second.  `v` is itself a leap-second value exactly when it stays inside the same leap second. -/
+theorem naive_result_leap (op : Op) (dt : NaiveDT) (dur : Delta) (hdt : NDTInv dt) (hl : ¬ NonLeap dt)
+    (hd : DInv dur) :
+    let w := instNs dt
+    let m := specOf (kindOf op) w (ns dur)
+    (ns dur ≤ 0 ∨ 9223372036854775807 < ns dur →
+      naive_duration op dt dur = .ok (.err .DurationExceedsLimit)) ∧
+    (0 < ns dur ∧ ns dur ≤ 9223372036854775807 → ¬ InI64 w →
+      naive_duration op dt dur = .ok (.err .TimestampExceedsLimit)) ∧
+    (0 < ns dur ∧ ns dur ≤ 9223372036854775807 → InI64 w →
+      ∃ v, naive_duration op dt dur = .ok (.ok v) ∧ NDTInv v ∧
+        (dt.time.frac + (m - w) < 2000000000 → instNs v = m) ∧
+        (2000000000 ≤ dt.time.frac + (m - w) → instNs v = m - 1000000000 ∧ NonLeap v) ∧
+        (¬ NonLeap v ↔ (1000000000 ≤ dt.time.frac + (m - w) ∧ dt.time.frac + (m - w) < 2000000000)) ∧
+        (TStrict dt.time → TStrict v.time ∧
+          NaiveDT.timestamp_nanos_opt v = .ok (if InI64 (instNs v) then some (instNs v) else none))) := by
+  dsimp only
+  obtain ⟨e1, e2, e3⟩ := naive_eval op dt dur hdt hd
+  refine ⟨e1, e2, ?_⟩
+  intro hg hin
+  obtain ⟨x, hx, hm, _⟩ := e3 hg hin
+  obtain ⟨a, b, c, d', e⟩ := moved_leap dt x _ hl hm
+  refine ⟨x, hx, a, fun h => by rw [b h]; omega, fun h => ?_, d', fun hs => ?_⟩
+  · obtain ⟨c1, c2⟩ := c h
+    exact ⟨by rw [c1]; omega, c2⟩
+  · exact ⟨e hs, stamp_of_result x a (e hs)⟩
+
+/-- **`DateTime<FixedOffset>` whose UTC reading is inside a leap second**: the same on the wall clock -/
+theorem zoned_result_leap (op : Op) (z : Zoned) (dur : Delta) (hz : ZInv z) (hl : ¬ NonLeap z.utc)
+    (hd : DInv dur) :
+    let w := wallNs z
+    let m := specOf (kindOf op) w (ns dur)
+    (ns dur ≤ 0 ∨ 9223372036854775807 < ns dur →
+      zoned_duration op z dur = .ok (.err .DurationExceedsLimit)) ∧
+    (0 < ns dur ∧ ns dur ≤ 9223372036854775807 → ¬ InI64 w →
+      zoned_duration op z dur = .ok (.err .TimestampExceedsLimit)) ∧
+    (0 < ns dur ∧ ns dur ≤ 9223372036854775807 → InI64 w →
+      ∃ v, zoned_duration op z dur = .ok (.ok v) ∧ v.off = z.off ∧ ZInv v ∧
+        (z.utc.time.frac + (m - w) < 2000000000 → wallNs v = m) ∧
+        (2000000000 ≤ z.utc.time.frac + (m - w) → wallNs v = m - 1000000000 ∧ NonLeap v.utc) ∧
+        (¬ NonLeap v.utc ↔
+          (1000000000 ≤ z.utc.time.frac + (m - w) ∧ z.utc.time.frac + (m - w) < 2000000000)) ∧
+        (TStrict z.utc.time → TStrict v.utc.time)) := by
+  dsimp only
+  obtain ⟨e1, e2, e3⟩ := zoned_eval op z dur hz hd
+  refine ⟨e1, e2, ?_⟩
+  intro hg hin
+  obtain ⟨x, hx, hm, _⟩ := e3 hg hin
+  obtain ⟨a, b, c, d', e⟩ := moved_leap z.utc x _ hl hm
+  have hwx : ∀ k, instNs x = instNs z.utc +
+        (specOf (kindOf op) (wallNs z) (ns dur) - wallNs z) - k →
+      wallNs (⟨x, z.off⟩ : Zoned) = specOf (kindOf op) (wallNs z) (ns dur) - k := by
+    intro k hk
+    show instNs x + z.off * 1000000000 = _
+    rw [hk]
+    generalize specOf (kindOf op) (wallNs z) (ns dur) = m
+    unfold wallNs; omega
+  refine ⟨⟨x, z.off⟩, hx, rfl, ⟨a, hz.2⟩, fun h => ?_, fun h => ?_, d', e⟩
+  · have := hwx 0 (by rw [b h]; omega)
+    omega
+  · obtain ⟨c1, c2⟩ := c h
+    exact ⟨hwx 1000000000 c1, c2⟩
+
+/-- non-vacuity, each branch: 2016-12-31T23:59:60.5 truncated to 300 ms stays inside the leap second
+at the multiple; rounded up to one second it leaves the leap second by exactly its remaining half
+second and lands on 00:00:00 — `m − 10⁹`; viewed at +05:30 the same on the wall clock; the leap second
+1677-09-21T00:11:59(+1.5 s) UTC viewed at +00:00:43, whose wall-clock stamp −9223372036500000000 is just
+inside the window (refused before fix 32de816), is truncated to the second -/
+example : NDTInv ⟨dateOfYo 2016 366, ⟨86399, 1500000000⟩⟩ ∧ TStrict (⟨86399, 1500000000⟩ : Time) ∧
+    ¬ NonLeap ⟨dateOfYo 2016 366, ⟨86399, 1500000000⟩⟩ ∧
+    naive_duration .trunc ⟨dateOfYo 2016 366, ⟨86399, 1500000000⟩⟩ ⟨0, 300000000⟩ =
+      .ok (.ok ⟨dateOfYo 2016 366, ⟨86399, 1300000000⟩⟩) ∧
+    (300000000 : Int) ∣ instNs ⟨dateOfYo 2016 366, ⟨86399, 1300000000⟩⟩ ∧
+    naive_duration .up ⟨dateOfYo 2016 366, ⟨86399, 1500000000⟩⟩ ⟨1, 0⟩ =
+      .ok (.ok ⟨dateOfYo 2017 1, ⟨0, 0⟩⟩) ∧
+    zoned_duration .up ⟨⟨dateOfYo 2016 366, ⟨86399, 1500000000⟩⟩, 19800⟩ ⟨1, 0⟩ =
+      .ok (.ok ⟨⟨dateOfYo 2017 1, ⟨0, 0⟩⟩, 19800⟩) ∧
+    ZInv ⟨⟨dateOfYo 1677 264, ⟨719, 1500000000⟩⟩, 43⟩ ∧
+    wallNs ⟨⟨dateOfYo 1677 264, ⟨719, 1500000000⟩⟩, 43⟩ = -9223372036500000000 ∧
+    zoned_duration .trunc ⟨⟨dateOfYo 1677 264, ⟨719, 1500000000⟩⟩, 43⟩ ⟨1, 0⟩ =
+      .ok (.ok ⟨⟨dateOfYo 1677 264, ⟨719, 1000000000⟩⟩, 43⟩) := by decide +kernel
+
+/-- COUNTEREXAMPLE to "the result is the least multiple not before the input" (finding F19), on the
+value-level model and checked by the kernel: 2016-12-31T23:59:60.5 `.duration_round_up(1 min)` returns
+2017-01-01T00:00:59, whose timestamp is one second short of the specified multiple (and not a multiple
+of one minute at all).  The harness replays it on the crate. -/
+theorem leap_round_up_is_not_the_multiple :
+    NDTInv ⟨dateOfYo 2016 366, ⟨86399, 1500000000⟩⟩ ∧ TStrict (⟨86399, 1500000000⟩ : Time) ∧
+    naive_duration .up ⟨dateOfYo 2016 366, ⟨86399, 1500000000⟩⟩ ⟨60, 0⟩ =
+      .ok (.ok ⟨dateOfYo 2017 1, ⟨59, 0⟩⟩) ∧
+    instNs ⟨dateOfYo 2017 1, ⟨59, 0⟩⟩ = 1483228859000000000 ∧
+    specOf .up (instNs ⟨dateOfYo 2016 366, ⟨86399, 1500000000⟩⟩) (ns ⟨60, 0⟩) = 1483228860000000000 ∧
+    ¬ ((60000000000 : Int) ∣ 1483228859000000000) := by decide +kernel
 
 /-- `span_for_digits` (table re-extracted from the source on every run) is 10^(9 − min 9 digits)
 for every digit count -/
@@ -186,6 +480,88 @@ example : round_subsecs 154000000 2 = .ok (150000000, 0) ∧ round_subsecs 15400
     round_subsecs 999999999 3 = .ok (0, 1) ∧ trunc_subsecs 1999999999 0 = .ok (1000000000, 0) ∧
     round_subsecs 1500000000 0 = .ok (0, 1) ∧ round_subsecs 1499999999 0 = .ok (1000000000, 0) ∧
     round_subsecs 123456789 65535 = .ok (123456789, 0) := by decide
+
+/-! ### Sub-second rounding: the returned value
+
+`subsec_spec` above is about the nanosecond field and uses `apply_within` for "adding less than a
+second, seen on the field".  Here that step is tied to C07's addition (`addLeap`, which
+`Time.overflowing_add_signed` equals by C07 `add_spec`), and the three `SubsecRound` impls are stated
+on the values: `time_subsecs` (NaiveTime), `naive_subsecs` (NaiveDateTime), `zoned_subsecs`
+(DateTime<FixedOffset>) of Model/RoundDT.lean, driver ops `rd.t.*`, `rd.n.rsub/tsub`, `rd.z.rsub/tsub`.
+`subsecSpec round frac digits` is the specified (field, carried seconds) pair of `subsec_meaning`. -/
+
+/-- `apply_within` is C07's extended-line addition: when the move `d` lands inside the current second
+(`c = 0`, field `f = frac + d`, leap fraction kept) or exactly on its end (`c = 1`, field 0), the sum
+`t + d` of C07 has field `f`, second count `t.secs + c` modulo a day, carries the whole day when that
+passes midnight — and `apply_within` returns exactly `(f, c)` -/
+theorem apply_within_is_add (t : Time) (d f c : Int) (ht : TValid t)
+    (h : (c = 0 ∧ f = t.frac + d ∧ leapBase t.frac ≤ f ∧ f < leapBase t.frac + 1000000000) ∨
+      (c = 1 ∧ f = 0 ∧ t.frac + d = leapBase t.frac + 1000000000)) :
+    addLeap t d = (⟨(t.secs + c) % 86400, f⟩, (t.secs + c) / 86400 * 86400) ∧
+    apply_within t.frac d = (f, c) :=
+  addLeap_within t d f c ht h
+
+/-- the integer-level functions are the decision (`subsecMove`, equal to the specified move)
+followed by `apply_within`, and the move always lands as `apply_within_is_add` requires -/
+theorem subsecs_decompose (frac : Int) (digits : Nat) (h0 : 0 ≤ frac) (h1 : frac < 2000000000) :
+    round_subsecs frac digits = .ok (apply_within frac (subsecMove true frac digits)) ∧
+    trunc_subsecs frac digits = .ok (apply_within frac (subsecMove false frac digits)) ∧
+    ∀ round, subsec_move round frac digits = .ok (subsecMove round frac digits) ∧
+      -1000000000 < subsecMove round frac digits ∧ subsecMove round frac digits < 1000000000 ∧
+      (((subsecSpec round frac digits).2 = 0 ∧
+          (subsecSpec round frac digits).1 = frac + subsecMove round frac digits ∧
+          leapBase frac ≤ (subsecSpec round frac digits).1 ∧
+          (subsecSpec round frac digits).1 < leapBase frac + 1000000000) ∨
+        ((subsecSpec round frac digits).2 = 1 ∧ (subsecSpec round frac digits).1 = 0 ∧
+          frac + subsecMove round frac digits = leapBase frac + 1000000000)) :=
+  ⟨(subsecs_are_move_within frac digits h0 h1).1, (subsecs_are_move_within frac digits h0 h1).2,
+    fun round => ⟨subsec_move_eq round frac digits h0 h1, (subsecMove_bounds round frac digits h0 h1).1,
+      (subsecMove_bounds round frac digits h0 h1).2, subsec_move_lands round frac digits h0 h1⟩⟩
+
+/-- **`NaiveTime`**, every valid time (leap-second fields included), every digit count: the call
+returns the time with the specified field and the second count moved by the specified carry, wrapping
+at midnight (23:59:59.9 rounds to 00:00:00); never a panic -/
+theorem time_subsecs_spec (round : Bool) (t : Time) (digits : Nat) (ht : TValid t) :
+    time_subsecs round t digits =
+      .ok ⟨(t.secs + (subsecSpec round t.frac digits).2) % 86400, (subsecSpec round t.frac digits).1⟩ :=
+  time_subsecs_eval round t digits ht
+
+/-- **`NaiveDateTime`**, every valid value: the returned value is valid, has the specified field, and
+is the specified carry (0 or 1 s) later on the timestamp line — date carry included.  The exact
+exception: when that carried second lies after `NaiveDateTime::MAX` (only for a value in the last
+second of the range whose field rounds up to the next second) the `+` operator panics. -/
+theorem naive_subsecs_spec (round : Bool) (dt : NaiveDT) (digits : Nat) (hdt : NDTInv dt) :
+    (instSecs dt + (subsecSpec round dt.time.frac digits).2 ≤ instSecs NaiveDT.MAX →
+      ∃ v, naive_subsecs round dt digits = .ok v ∧ NDTInv v ∧
+        v.time.frac = (subsecSpec round dt.time.frac digits).1 ∧
+        instSecs v = instSecs dt + (subsecSpec round dt.time.frac digits).2) ∧
+    (instSecs NaiveDT.MAX < instSecs dt + (subsecSpec round dt.time.frac digits).2 →
+      naive_subsecs round dt digits = .panic) :=
+  naive_subsecs_eval round dt digits hdt
+
+/-- **`DateTime<FixedOffset>`**: the same on the UTC reading; the offset is kept (the nanosecond field
+of the wall clock is that of the UTC reading) -/
+theorem zoned_subsecs_spec (round : Bool) (z : Zoned) (digits : Nat) (hz : ZInv z) :
+    (instSecs z.utc + (subsecSpec round z.utc.time.frac digits).2 ≤ instSecs NaiveDT.MAX →
+      ∃ v, zoned_subsecs round z digits = .ok ⟨v, z.off⟩ ∧ NDTInv v ∧
+        v.time.frac = (subsecSpec round z.utc.time.frac digits).1 ∧
+        instSecs v = instSecs z.utc + (subsecSpec round z.utc.time.frac digits).2) ∧
+    (instSecs NaiveDT.MAX < instSecs z.utc + (subsecSpec round z.utc.time.frac digits).2 →
+      zoned_subsecs round z digits = .panic) :=
+  zoned_subsecs_eval round z digits hz
+
+/-- non-vacuity: midnight wrap of a `NaiveTime`; date carry of a `NaiveDateTime` on New Year's Eve,
+out of a leap second; the documented panic at the very end of the range, and its neighbour that does
+not round up; a zone-aware value -/
+example : time_subsecs true ⟨86399, 950000000⟩ 1 = .ok ⟨0, 0⟩ ∧
+    time_subsecs false ⟨86399, 950000000⟩ 1 = .ok ⟨86399, 900000000⟩ ∧
+    naive_subsecs true ⟨dateOfYo 2016 366, ⟨86399, 1999999999⟩⟩ 3 = .ok ⟨dateOfYo 2017 1, ⟨0, 0⟩⟩ ∧
+    naive_subsecs false ⟨dateOfYo 2016 366, ⟨86399, 1999999999⟩⟩ 3 =
+      .ok ⟨dateOfYo 2016 366, ⟨86399, 1999000000⟩⟩ ∧
+    naive_subsecs true NaiveDT.MAX 0 = .panic ∧
+    naive_subsecs true ⟨Date.MAX, ⟨86399, 499999999⟩⟩ 0 = .ok ⟨Date.MAX, ⟨86399, 0⟩⟩ ∧
+    zoned_subsecs true ⟨⟨dateOfYo 2018 11, ⟨43200, 154000000⟩⟩, 3600⟩ 2 =
+      .ok ⟨⟨dateOfYo 2018 11, ⟨43200, 150000000⟩⟩, 3600⟩ := by decide +kernel
 
 /-- FINDING (kept visible; replayed on the crate by the harness).  A date-time inside a leap second
 (sub-second field ≥ 10⁹) has the stamp of the following second, but `original + delta` counts the
